@@ -7,7 +7,7 @@ From Coq Require Import List Arith ZArith Bool.
 Import ListNotations.
 From Acts.Gen Require Import GenState.
 From Acts.Model Require Import Engine Oracles.
-From Acts.Proofs Require Import EngineBasics C02Core C02Ops.
+From Acts.Proofs Require Import EngineBasics ReviveInv LogInv C02Core C02Ops.
 
 (* every state write of every run, for every node table (well-formed or not), every operation
    sequence and every schedule, moves the task forward through the stages
@@ -28,6 +28,26 @@ Theorem C02_terminal_final :
     In (ETrans t o n at_ site) (trace (run ns clock0 ops)) -> is_completed o = true -> n = o \/ (o = SError /\ n = SRunning).
 Proof. exact terminal_final. Qed.
 
+(* ... and that exception is taken at most once per task: no trace of any run holds two revival
+   events of the same task (whatever lies before, between and after them) *)
+Theorem C02_revived_at_most_once :
+  forall (ns : list node) (clock0 : Z) (ops : list op) t l1 l2 l3 a1 s1 a2 s2,
+    trace (run ns clock0 ops) = l1 ++ ETrans t SError SRunning a1 s1 :: l2 ++ ETrans t SError SRunning a2 s2 :: l3 -> False.
+Proof. exact revived_at_most_once. Qed.
+(* the same as a statement about the state history of a task, read off the trace (`cur c_none l t` is the
+   state the writes of the prefix l leave task t in; `revivals l` lists the tasks revived in l):
+   every write starts from the state the task has, and between any two points of a run with no revival of
+   the task in between its stage never decreases and a terminal state is kept for good *)
+Theorem C02_write_from_current :
+  forall ns clock0 ops l1 l2 t o n a s,
+    trace (run ns clock0 ops) = l1 ++ ETrans t o n a s :: l2 -> o = cur c_none l1 t.
+Proof. exact write_from_current. Qed.
+Theorem C02_states_only_move_forward :
+  forall ns clock0 ops l1 l2 t,
+    trace (run ns clock0 ops) = l1 ++ l2 -> ~ In t (revivals l2) ->
+    stage (cur c_none l1 t) <= stage (st (run ns clock0 ops) t) /\
+    (is_completed (cur c_none l1 t) = true -> st (run ns clock0 ops) t = cur c_none l1 t).
+Proof. exact states_only_move_forward. Qed.
 (* non-vacuity: a run with a transition of every stage, and a revival *)
 Example C02_example :
   let ns := [ Build_node 0 KWorkflow 0 [(ONormal, 1)] None None false [] dspec [] [] [] [] [] [] false;
@@ -42,3 +62,6 @@ Proof. vm_compute. auto. Qed.
 Print Assumptions C02_forward.
 Print Assumptions C02_legal_meaning.
 Print Assumptions C02_terminal_final.
+Print Assumptions C02_revived_at_most_once.
+Print Assumptions C02_write_from_current.
+Print Assumptions C02_states_only_move_forward.
